@@ -201,11 +201,13 @@ def cbItems (th : List TS) (res : Bool) (v e : Nat) : List CbItem :=
       if k = CbKind.nil then none else some (CbItem.refcb a (k == CbKind.rcd) res v e)
     | _ => none
 
-/-- ghost: what every live reference with a callback has now been given -/
-def tellAll (th : List TS) (told : Option Nat) : List TS :=
-  th.map fun (t : TS) => match t with
-    | .ref k pc true f sf _ => if k = CbKind.nil then t else .ref k pc true f sf told
-    | t => t
+/-- ghost: what a live reference with a callback has now been given -/
+def tell1 (told : Option Nat) (t : TS) : TS :=
+  match t with
+  | .ref k pc true f sf _ => if k = CbKind.nil then t else .ref k pc true f sf told
+  | t => t
+
+def tellAll (th : List TS) (told : Option Nat) : List TS := th.map (tell1 told)
 
 def cancelCall (cs : List Call) (i : Nat) : List Call :=
   match cs[i]? with
